@@ -18,7 +18,7 @@ WRAPS = ["coap_ticks", "coap_socket_send", "coap_socket_recv", "gnutls_handshake
          "gnutls_psk_set_server_credentials_function", "gnutls_psk_set_client_credentials_function",
          "coap_handle_dgram", "coap_dtls_handle_timeout", "coap_retransmit"]
 
-LOSSFREE_KINDS = ("sni-history", "cred/", "sched/plain", "sched/queue3", "sched/queue-mid", "sched/after", "sched/nstart2")
+LOSSFREE_KINDS = ("sni-history", "stranger-hello", "inject/in@", "cred/", "sched/plain", "sched/queue3", "sched/queue-mid", "sched/after", "sched/nstart2")
 
 
 def evaluate(run, model, drv, cases, lines):
@@ -92,6 +92,9 @@ def evaluate(run, model, drv, cases, lines):
         # (b) what libcoap handed to GnuTLS = the credential model
         forced = bool(c.force)
         for t in toks:
+            if t.startswith("c.ih:") and m and m.group(2) != "reject":
+                if norm(t[5:]) != m.group(2):
+                    fails.append((i, "cred", "the client's identity-hint callback was given hint %s, the server announces %s" % (t[5:], m.group(2)), True))
             if t.startswith("c.cb:") and m:
                 got = t[5:]
                 hint, _, rest = got.partition(":")
@@ -115,7 +118,7 @@ def evaluate(run, model, drv, cases, lines):
             fails.append((i, "oracle", "handshake completed although the configured credentials do not match", False))
         # (d) delivery on loss-free schedules with matching credentials
         if match and not forced and c.kind.startswith(LOSSFREE_KINDS) and "rel" not in c.ops \
-           and not any(op[0] in "xuoi" for op in c.ops) and "a.nocs" not in toks:
+           and not any(op[0] in "xuo" or op[:2] in ("is", "ic") for op in c.ops) and "a.nocs" not in toks:
             q, sreq, rsp = gen_tls.completed(c, o)
             if sorted(q) != sorted(sreq) or sorted(q) != sorted(rsp):
                 fails.append((i, "oracle", "matching credentials, no loss: requests %s, server handler saw %s, client handler saw %s" % (q, sreq, rsp), False))
@@ -253,6 +256,7 @@ def main(run):
     touts, tcr = vlib.run_lines_robust(tdrv, tlines, timeout=900)
     tcred = vlib.run_lines_robust(model, [c.cred_line() for c in tcases])[0]
     nt = 0
+    nih = 0
     for i, rc, err in tcr:
         run.violation("TLS/TCP driver crashed (rc=%d)" % rc, "case: %s\n%s\n" % (tlines[i], err[-1500:]),
                       tag="tcpcrash%d" % i, no_input=True)
@@ -262,6 +266,14 @@ def main(run):
         run.count(ln, " c.hs:" in o or " s.hs:" in o)
         run.hist("kind", c.kind.split("/")[0])
         run.hist("tcp_outcome", "established" if "c.st:4" in o else "not-established")
+        mm = re.match(r"match=(\d) sni=(\S+) c=(\S+) s=(\S+)", cr)
+        for t in o.split():
+            if t.startswith("c.ih:") and mm and mm.group(2) != "reject" and norm(t[5:]) != mm.group(2):
+                nih += 1
+                if nih <= 2:
+                    what = "TLS/TCP: the client's identity-hint callback was given hint %s, the server announces %s" % (t[5:], mm.group(2))
+                    run.violation(what, "case: %s\nwhat: %s\ntrace:\n%s\n" % (ln, what, o.replace(" |", "\n|")), tag="tcpih%d" % nih, no_input=True)
+                break
         for b in gen_tls.tcp_oracle(c, o, cr.startswith("match=1")):
             nt += 1
             if nt <= 3:
@@ -288,7 +300,7 @@ def main(run):
                 run.violation(what, "case: %s\nwhat: %s\ntrace:\n%s\n" % (tlines[i], what, touts[i].replace(" |", "\n|")),
                               tag="tcptie%d" % ntie, no_input=True)
     run.cov["tcp_tls_cases"] = len(tcases)
-    run.cov["tcp_tls_failures"] = nt
+    run.cov["tcp_tls_failures"] = nt + nih
     run.cov["tcp_tls_session_traces"] = len(tgt_lines)
     run.cov["tcp_tls_tie_failures"] = ntie
 
